@@ -80,6 +80,8 @@ type Obs struct {
 	Tape                    []string `json:"tape,omitempty"`
 	// FiredAt: index (within the op) of the executed state whose network action failed (-1: no send failed)
 	FiredAt int `json:"fired_at"`
+	// Fired: the injected storage fault was reached (connection protocols)
+	Fired bool `json:"fired,omitempty"`
 }
 
 type provider struct {
@@ -1650,13 +1652,13 @@ func main() {
 	}
 
 	// DID Exchange and legacy Connection: two real frameworks per case, the harness schedules messages and decisions
-	connDepth, connMax, connRandom := 9, 320, 120
+	connDepth, connMax, connRandom, connFault := 9, 320, 120, 260
 	if a.Tier == "thorough" {
-		connDepth, connMax, connRandom = 12, 1500, 400
+		connDepth, connMax, connRandom, connFault = 12, 1500, 400, 2000
 	}
 
 	for pi, p := range []string{"didex", "legacy"} {
-		exploreConn(tr, p, connDepth, connMax)
+		exploreConn(tr, p, connDepth, connMax, connFault)
 
 		r := rng.Fork(uint64(100 + pi))
 		for i := 0; i < connRandom; i++ {
